@@ -552,3 +552,29 @@ func RepeatCase(k int, faces []corpus.FaceRef) *Case {
 	}
 	return c
 }
+
+// spaceText interleaves digits and punctuation with every Unicode space the shaper
+// synthesises an advance for when the face has no glyph for it (U+2000..200A, 202F,
+// 205F, 3000: fractions of an em, figure and punctuation width, narrow spaces).
+var spaceText = func() []rune {
+	sp := []rune{0x2000, 0x2001, 0x2002, 0x2003, 0x2004, 0x2005, 0x2006, 0x2007, 0x2008, 0x2009, 0x200A, 0x202F, 0x205F, 0x3000, 0x00A0}
+	var t []rune
+	for i, r := range sp {
+		t = append(t, rune('0'+i%10), r)
+	}
+	return append(t, '.', 0x2008, ',', 0x2007, '1')
+}()
+
+// SpaceSize is the number of space-fallback cases: every face x 4 directions x 2 APIs.
+func SpaceSize(faces []corpus.FaceRef) int { return len(faces) * 8 }
+
+// SpaceCase returns space-fallback case k.
+func SpaceCase(k int, faces []corpus.FaceRef) *Case {
+	ref := faces[k/8]
+	c := &Case{Text: spaceText, RunStart: 0, RunEnd: len(spaceText), Dir: uint8(k % 4), Size: 16 << 6, Source: "space-fallback", Face: ref.String()}
+	c.Script = uint32(guessScript(spaceText))
+	if k%8 >= 4 {
+		c.Buffer = true
+	}
+	return c
+}
